@@ -523,6 +523,32 @@ func init() {
 		}
 		return out, ""
 	})
+	// the sources themselves, each with the conversion table of its literal items
+	h.RegisterImpl("src-store", func(cmd, meta *sx.Sexp) (*sx.Sexp, string) {
+		paths, files := filesOf(meta)
+		out := sx.L(sx.A("store"))
+		for _, p := range paths {
+			toks, _ := jet.VerifLex(files[p], "", "", "", "")
+			lits := sx.L()
+			seen := map[string]bool{}
+			for _, t := range toks {
+				k := strconv.Itoa(t.Typ) + "|" + t.Val
+				if !seen[k] {
+					seen[k] = true
+					if e := litSexp(t.Typ, t.Val); e != nil {
+						lits.Add(e)
+					}
+				}
+			}
+			out.Add(sx.L(sx.S(p), sx.S(files[p]), lits))
+		}
+		return out, ""
+	})
+	h.RegisterImpl("exec-src", func(cmd, meta *sx.Sexp) (*sx.Sexp, string) {
+		_, files := filesOf(meta)
+		return prepareExec(cmd, files).run(cmd, meta)
+	})
+	h.ModelNormalizers["exec-src"] = normalizeExecModel
 	// (exec store #entry (exts ...) esc globals vars data fuel) with meta (files ...)
 	h.RegisterImpl("exec", func(cmd, meta *sx.Sexp) (*sx.Sexp, string) {
 		_, files := filesOf(meta)
